@@ -1024,8 +1024,11 @@ def attached_stream(ctx, st=None, record=None):
     n1 = 3 if ctx.tier == 'quick' else 4
     n2 = 2 if ctx.tier == 'quick' else 3
     plans = [((0,), q) for n in range(0, n1 + 1) for q in itertools.product(alpha1, repeat=n)]
+    alpha2_small = [('attach', 0, 0), ('attach', 1, 0), ('attach', 0, 2), ('set', 0, 'laser_length'), ('drop', 0), ('drop', 1)]
     for init in ((0, 1), (0, 0), (0, 2)):
-        plans += [(init, q) for n in range(0, n2 + 1) for q in itertools.product(alpha2, repeat=n)]
+        plans += [(init, q) for n in range(0, 3) for q in itertools.product(alpha2, repeat=n)]
+        if n2 >= 3:             # thorough: length-3 sequences over the reduced alphabet (13^3 full sequences cost > 15 min)
+            plans += [(init, q) for q in itertools.product(alpha2_small, repeat=3)]
     plans += [((0, 0, 1), q) for n in range(0, 2) for q in itertools.product(alpha2, repeat=n)]
     for init, q in plans:
         spec = make_spec()
